@@ -36,13 +36,19 @@ static u64 g_shapeSeen[1 << 16]; static long g_shapes = 0;
 static void noteShape(u64 h) { size_t s = (size_t)(h >> 20) & 0xffff; for (int i = 0; i < 8; ++i) { size_t j = (s + i) & 0xffff; if (g_shapeSeen[j] == h) return; if (!g_shapeSeen[j]) { g_shapeSeen[j] = h; ++g_shapes; return; } } }
 
 template <class M> struct Checker {
+#ifndef VERIF_NO_PRIVATE
   typedef typename M::Item Item;
+#endif
   typedef typename M::Iterator It;
   enum { multi = Tr<M>::multi };
   char keybuf[128];
   const char* key(const char* what) { snprintf(keybuf, sizeof keybuf, "%s/%s", (const char*)ctx, what); return keybuf; }
 
   long walkCount; u64 shape; long rotSeen;
+#ifdef VERIF_NO_PRIVATE
+  // fallback flavour (no access to the tree's private nodes): structure is only observable through the public API
+  void structure(const M&, const Model&) {}
+#else
   // recursive structural check; returns height
   size_t walk(const M& m, Item* it, Item* parent, Vec<Item*>& inorder, int depth) {
     if (!it) { shape = mix(shape, 1); return 0; }
@@ -80,6 +86,7 @@ template <class M> struct Checker {
     ++walkCount;
   }
 
+#endif
   void contents(const M& m, const Model& ref) {
     if (m.size() != ref.n) fail(key("size"), "size() %lu != model %lu", (unsigned long)m.size(), (unsigned long)ref.n);
     if (m.isEmpty() != (ref.n == 0)) fail(key("isEmpty"), "isEmpty() %d with model size %lu", (int)m.isEmpty(), (unsigned long)ref.n);
@@ -178,7 +185,9 @@ template <class M> struct Checker {
   void opRemoveIt(M& m, Model& ref, size_t idx) {
     setctxf("%s.remove(iterator)", Tr<M>::name()); hist.addf("remove(it@%lu)\n", (unsigned long)idx);
     It it = iterAt(m, idx);
-    Item* node = it.item; bool two = node->left && node->right; if (two) cnt("two_child_removals");
+#ifndef VERIF_NO_PRIVATE
+    { Item* node = it.item; bool two = node->left && node->right; if (two) cnt("two_child_removals"); }
+#endif
     It res = m.remove(it);
     ref.removeAt(idx);
     if (indexOf(m, res) != idx) fail(key("returned-iterator"), "remove(iterator at %lu) returned index %lu, expected the successor", (unsigned long)idx, (unsigned long)indexOf(m, res));
@@ -321,7 +330,9 @@ template <class M> static void depthRuns() {
     long rem = (long)m.size() / 2; for (long i = 0; i < rem; ++i) { if (pattern & 1) m.removeFront(); else m.removeBack(); }
     for (int probe = 0; probe < 200; ++probe) { g_cmp = 0; m.find(CKey((int)r.below(1000000))); long used = g_cmp; statMax("max_find_comparisons", used); if (used > cmpBound(m.size())) fail("Map.find/depth-run/find-comparisons", "after removals: find among %lu entries used %ld comparisons, bound %ld", (unsigned long)m.size(), used, cmpBound(m.size())); cnt("lookups"); }
     // structure walk without model: emulate with sizes only
+#ifndef VERIF_NO_PRIVATE
     { Vec<typename M::Item*> io; c.shape = 3; c.walk(m, m.root, 0, io, 0); if (io.n != m.size()) fail("Map/depth-run/structure", "node count %lu != size %lu", (unsigned long)io.n, (unsigned long)m.size()); for (size_t i = 1; i < io.n; ++i) if (io[i - 1]->key.v > io[i]->key.v) fail("Map/depth-run/order", "in-order walk not ascending at %lu", (unsigned long)i); }
+#endif
     statMax("max_size", n); cnt("ops", n + rem);
     endCase(mix((u64)pattern, (u64)n), true);
   }
